@@ -1,2 +1,540 @@
-// Package c09 decides C09 (see DESIGN.md section 4). Not built yet.
+// Package c09 decides C09 (dynamic types: identity, assertions, method sets,
+// dispatch).
+//
+// spec/Types.tla is the reference semantics (selectors through embedded
+// fields, method sets, implements, type switches, receiver passing, type
+// identity, interface equality); spec/TypesScen.tla enumerates families of
+// named struct types inside explicit bounds (exhaustively for the small
+// bounds, from VERIF_SEED-drawn samples inside the larger ones), checks the
+// meta-properties of the specification on every family and emits the predicted
+// tables.  This package renders the families as Go programs (many families per
+// program, uniquely prefixed names, sub-packages vp/pa and vp/alt/pa - both
+// called pa - for the cross-package cases, function-local types where those
+// are the point), builds them with the compiler under test, runs them under
+// Node and compares every printed table cell with the prediction.  The same
+// program built by the reference toolchain guards the specification: a family
+// on which native Go disagrees with the prediction is discarded and counted.
 package c09
+
+import (
+	"encoding/json"
+	"fmt"
+	"math/rand"
+	"os"
+	"path/filepath"
+	"sort"
+	"strings"
+	"sync"
+	"time"
+
+	"verif/core"
+	"verif/gjs"
+	"verif/reg"
+	"verif/tlcx"
+)
+
+func init() { reg.Register("C09", "model_checking", Run) }
+
+var i32 = []any{"basic", "int32"}
+
+func identBound(c *core.Ctx, rng *rand.Rand) Ident {
+	under := []any{"struct", []any{[]any{"X", i32, false, ""}}}
+	id := Ident{
+		Decls: []IDecl{
+			{Name: "A", Pkg: "main", Fn: "", Under: under}, {Name: "A", Pkg: "pa", Fn: "", Under: under}, {Name: "A", Pkg: "pb", Fn: "", Under: under},
+			{Name: "A", Pkg: "main", Fn: "f", Under: under}, {Name: "A", Pkg: "main", Fn: "g", Under: under},
+			{Name: "B", Pkg: "main", Fn: "", Under: []any{"slice", i32}},
+		},
+		Sites: []ISite{{"main", ""}, {"main", "f"}, {"main", "g"}, {"pa", ""}, {"pb", ""}},
+		Leafs: [][2]string{{"", "A"}, {"pa", "A"}, {"pb", "A"}, {"", "B"}},
+		Ctors: []string{"ptr", "slice", "chan", "func", "arr2", "arr3", "map", "sX", "sx", "sXt", "sxY", "sYx", "semb", "sembp", "snamed", "pifM", "pifm", "pifMm"},
+		D2:    [][2]string{},
+	}
+	// depth-2 expressions: constructor pairs drawn from the seed
+	outer := []string{"ptr", "slice", "chan", "func", "arr2", "map", "sX", "sx", "sXt"}
+	inner := []string{"ptr", "slice", "arr2", "arr3", "map", "sX", "sx", "sxY", "semb", "sembp", "snamed", "func"}
+	n := c.Pick(4, 24)
+	seen := map[[2]string]bool{}
+	for len(id.D2) < n {
+		p := [2]string{outer[rng.Intn(len(outer))], inner[rng.Intn(len(inner))]}
+		if !seen[p] {
+			seen[p] = true
+			id.D2 = append(id.D2, p)
+		}
+	}
+	return id
+}
+
+func slot(names []string, scopes [][2]string, decls [][]string, orders ...string) Slot {
+	if len(orders) == 0 {
+		orders = []string{"asc"}
+	}
+	return Slot{Names: names, Scopes: scopes, Decls: decls, Orders: orders}
+}
+
+// spaces returns the bounds of this run.
+func spaces(c *core.Ctx, rng *rand.Rand) []Space {
+	mainOnly := [][2]string{scMain}
+	named := func(pkg string, own []string, emb ...int) Iface {
+		if emb == nil {
+			emb = []int{}
+		}
+		return Iface{Pkg: pkg, Form: "named", Own: own, Emb: emb}
+	}
+	anon := func(pkg string, own []string, emb ...int) Iface {
+		if emb == nil {
+			emb = []int{}
+		}
+		return Iface{Pkg: pkg, Form: "anon", Own: own, Emb: emb}
+	}
+	var out []Space
+	// S1: embedding depth, shadowing, ambiguity, receiver kinds - one method name,
+	// every declaration/embedding pattern over 3 (thorough: 4) types, exhaustively
+	{
+		nt := c.Pick(3, 4)
+		sp := Space{Label: "depth", Mode: "exh", Names: []string{"M"}, Rooted: true, Samples: [][]TypeDecl{}, Nunits: 1,
+			Ifaces: []Iface{named("main", []string{"M"}), anon("main", []string{"M"})}}
+		for i := 0; i < nt; i++ {
+			sp.Slots = append(sp.Slots, slot([]string{string(rune('A' + i))}, mainOnly, allDecls(1)))
+		}
+		out = append(out, sp)
+	}
+	// S2: scopes - two types, one unexported method name, every placement in
+	// main / vp/pa / vp/alt/pa / function-local, equal and different type names
+	{
+		sp := Space{Label: "scopes", Mode: "exh", Names: []string{"m"}, Rooted: true, Samples: [][]TypeDecl{}, Nunits: 1,
+			Ifaces: []Iface{named("main", []string{"m"}), named("pa", []string{"m"}), anon("main", []string{"m"}), named("pb", []string{"m"})}}
+		sp.Slots = []Slot{
+			slot([]string{"A"}, [][2]string{scMain, scPa, scF}, allDecls(1)),
+			slot([]string{"A", "B"}, [][2]string{scMain, scPa, scPb, scF}, allDecls(1)),
+		}
+		out = append(out, sp)
+	}
+	// S3: equally named types in two scopes (function-local / vp/pa / vp/alt/pa /
+	// main) over two method-carrying types: T{A?;B?} and T'{A?;B?}
+	{
+		sp := Space{Label: "samename", Mode: "exh", Names: []string{"M"}, Rooted: false, Samples: [][]TypeDecl{}, Nunits: 1,
+			Ifaces: []Iface{named("main", []string{"M"}), anon("main", []string{"M"})}}
+		vp := []string{"-", "v", "p"}
+		v := []string{"-", "v"}
+		no := []string{"-"}
+		sp.Slots = []Slot{
+			slot([]string{"T"}, [][2]string{scF, scPa}, [][]string{{"-"}}),
+			slot([]string{"T"}, [][2]string{scG, scPb, scMain}, [][]string{{"-"}}),
+			slot([]string{"A"}, [][2]string{scPb}, [][]string{{"v"}, {"p"}}),
+			slot([]string{"B"}, [][2]string{scPb}, [][]string{{"-"}, {"v"}}),
+		}
+		sp.Slots[0].Embt = [][]string{no, v, v}
+		sp.Slots[1].Embt = [][]string{vp, v}
+		sp.Slots[2].Embt = [][]string{no}
+		if c.Thorough() {
+			sp.Slots[0].Scopes = [][2]string{scF, scPa, scMain}
+			sp.Slots[0].Embt = [][]string{no, vp, v}
+			sp.Slots[2].Decls = allDecls(1)
+			sp.Slots[2].Embt = [][]string{v}
+		}
+		out = append(out, sp)
+	}
+	// S4: the large space, sampled from the seed: 4 types, 3 method names, all
+	// scopes, colliding type names, both field orders, six interfaces
+	{
+		sp := Space{Label: "sampled", Mode: "sample", Names: []string{"M", "N", "m"}, Rooted: false, Nunits: 16,
+			Ifaces: []Iface{
+				named("main", []string{"M"}),
+				named("main", []string{"N"}, 1), // embeds I1
+				anon("main", []string{"m"}),
+				named("pa", []string{"m"}),
+				named("pa", []string{"M", "m"}),
+				anon("main", []string{"N"}, 1), // interface{ I1; N() } - same method set as I2
+				anon("pa", []string{"M", "N"}),
+			}}
+		all := [][2]string{scMain, scMain, scPa, scPb, scF, scG}
+		tn := []string{"A", "B", "C"}
+		for i := 0; i < 4; i++ {
+			sp.Slots = append(sp.Slots, slot(tn, all, allDecls(3), "asc", "desc"))
+		}
+		n := c.Pick(260, 16000)
+		seen := map[string]bool{}
+		for len(sp.Samples) < n {
+			ts := sampleFamily(rng, &sp)
+			if ts == nil {
+				continue
+			}
+			b, _ := json.Marshal(ts)
+			if seen[string(b)] {
+				continue
+			}
+			seen[string(b)] = true
+			sp.Samples = append(sp.Samples, ts)
+		}
+		out = append(out, sp)
+	}
+	// S5 (thorough): three types, two names (exported + unexported), all scopes, exhaustive
+	if c.Thorough() {
+		sp := Space{Label: "two-names", Mode: "exh", Names: []string{"M", "m"}, Rooted: true, Samples: [][]TypeDecl{}, Nunits: 1,
+			Ifaces: []Iface{named("main", []string{"M"}), named("pa", []string{"m"}), anon("main", []string{"m"}), named("main", []string{"m"}, 1)}}
+		sp.Slots = []Slot{
+			slot([]string{"A"}, [][2]string{scMain, scF}, allDecls(2)),
+			slot([]string{"B"}, [][2]string{scMain, scPa}, allDecls(2)),
+			slot([]string{"C"}, [][2]string{scMain, scPa, scPb}, allDecls(2)),
+		}
+		out = append(out, sp)
+	}
+	for i := range out {
+		for k := range out[i].Slots {
+			sl := &out[i].Slots[k]
+			if sl.Embt == nil {
+				sl.Embt = [][]string{}
+				for j := k + 1; j < len(out[i].Slots); j++ {
+					sl.Embt = append(sl.Embt, []string{"-", "v", "p"})
+				}
+			}
+		}
+		for j := range out[i].Ifaces {
+			if out[i].Ifaces[j].Emb == nil {
+				out[i].Ifaces[j].Emb = []int{}
+			}
+		}
+	}
+	return out
+}
+
+const tlcCfg = "SPECIFICATION Spec\nINVARIANT SpecInv\nINVARIANT Emit\nCHECK_DEADLOCK FALSE\n"
+
+// Run is the C09 check.
+func Run(c *core.Ctx, pool *gjs.Pool) {
+	c.Assumef("all methods of the scenario programs have the signature func() int32; signature mismatches are outside the enumeration")
+	c.Assumef("embedding is acyclic and at most 3 deep; embedded interfaces inside structs, generic types and non-struct named types with methods are not enumerated")
+	c.Assumef("programs observe themselves with println of bools, small ints and ASCII strings; of a failed assertion's panic message only the missing method name is compared")
+	rng := rand.New(rand.NewSource(c.Seed))
+	var p Params
+	if dir := os.Getenv("VERIF_REPLAY"); dir != "" {
+		b, err := os.ReadFile(filepath.Join(dir, "params.json"))
+		if err != nil {
+			c.Infra(fmt.Errorf("replay: %v", err))
+			return
+		}
+		if err := json.Unmarshal(b, &p); err != nil {
+			c.Infra(fmt.Errorf("replay: %v", err))
+			return
+		}
+	} else {
+		p = Params{Out: "scen", Spaces: spaces(c, rng), Ident: identBound(c, rng)}
+		if only := os.Getenv("C09_ONLY"); only != "" { // debugging aid: restrict the run to some spaces ("depth,ident")
+			var keep []Space
+			for _, sp := range p.Spaces {
+				if strings.Contains(","+only+",", ","+sp.Label+",") {
+					keep = append(keep, sp)
+				}
+			}
+			p.Spaces = keep
+			if p.Spaces == nil {
+				p.Spaces = []Space{}
+			}
+			if !strings.Contains(","+only+",", ",ident,") {
+				p.Ident.Sites = []ISite{}
+			}
+		}
+	}
+	decide(c, pool, &p)
+}
+
+func decide(c *core.Ctx, pool *gjs.Pool, p *Params) {
+	curIdent = &p.Ident
+	pj, _ := json.Marshal(p)
+	r, err := tlcx.Run(c, tlcx.Opts{Module: "TypesScen", Cfg: tlcCfg, Workers: 8, Timeout: 40 * time.Minute,
+		Files: map[string]string{"c09_params.json": string(pj)}, HeapMB: 8192})
+	if !tlcx.MustComplete(c, r, err, "TypesScen") {
+		return
+	}
+	c.Phase("tlc")
+	c.Set("checker_cmd", "tlc TypesScen (INVARIANT SpecInv: meta-properties of Types.tla on every family; INVARIANT Emit: predicted tables)")
+	files, _ := filepath.Glob(filepath.Join(r.Dir, "scen.*.ndjson"))
+	sort.Strings(files)
+	var tables []*Table
+	var rows []*IRow
+	for _, f := range files {
+		isIdent := strings.HasPrefix(filepath.Base(f), "scen.0_")
+		err := tlcx.ReadNDJSON(f, func(raw json.RawMessage) error {
+			var inner string
+			if err := json.Unmarshal(raw, &inner); err != nil {
+				return err
+			}
+			if isIdent {
+				var row IRow
+				if err := json.Unmarshal([]byte(inner), &row); err != nil {
+					return err
+				}
+				rows = append(rows, &row)
+				return nil
+			}
+			t := &Table{raw: inner}
+			if err := json.Unmarshal([]byte(inner), t); err != nil {
+				return err
+			}
+			if t.Sp < 1 || t.Sp > len(p.Spaces) {
+				return fmt.Errorf("table with space %d", t.Sp)
+			}
+			t.sp = &p.Spaces[t.Sp-1]
+			tables = append(tables, t)
+			return nil
+		})
+		if err != nil {
+			c.Infra(fmt.Errorf("decode %s: %v", f, err))
+			return
+		}
+	}
+	sort.Slice(tables, func(i, j int) bool { return tables[i].key() < tables[j].key() })
+	perSpace := map[string]int{}
+	exhaustive := true
+	for i := range p.Spaces {
+		if p.Spaces[i].Mode != "exh" {
+			exhaustive = false
+		}
+	}
+	cells := 0
+	for _, t := range tables {
+		perSpace[t.sp.Label]++
+		c.Distinct(t.key())
+	}
+	c.Set("families", len(tables))
+	c.Set("families_per_space", perSpace)
+	c.Set("exhaustive", exhaustive)
+	c.Set("exhaustive_spaces", "depth, scopes, samename (and two-names in thorough) are enumerated completely inside their bounds; `sampled` is a VERIF_SEED sample of its bound; the identity scenario enumerates all depth-1 expressions and a seeded choice of depth-2 constructor pairs")
+	c.Set("rule", "TLC enumerates families (named struct types x declared methods/receivers x embedding edges x scopes) of the spaces in c09_params.json; a case = one family with its full tables (assert x2 forms, two type switches, dispatch probes in 9 call forms, == on 5 values per type); distinct = distinct families; non-trivial = every family (each has at least one method or embedding edge probed); evaluations = compared table cells")
+
+	// ---- batches of families
+	per := 40
+	var batches [][]*Table
+	for i := 0; i < len(tables); i += per {
+		j := i + per
+		if j > len(tables) {
+			j = len(tables)
+		}
+		batches = append(batches, tables[i:j])
+	}
+	c.Set("programs", len(batches)+1)
+	var mu sync.Mutex
+	discards, validated := 0, 0
+	var mism []mismatch
+	c.ParMap(len(batches), func(bi int) {
+		b := newBatch()
+		var fams []*famProg
+		for k, t := range batches[bi] {
+			f := &famProg{t: t, idx: k + 1}
+			renderFamily(b, f)
+			fams = append(fams, f)
+		}
+		prog := b.prog()
+		if d := os.Getenv("C09_DUMP"); d != "" && bi%10 == 0 { // debugging aid: keep some batch programs
+			for n, src := range prog.ReplayFiles(fmt.Sprintf("batch%d", bi)) {
+				os.MkdirAll(filepath.Dir(filepath.Join(d, n)), 0o755)
+				os.WriteFile(filepath.Join(d, n), []byte(src), 0o644)
+			}
+		}
+		res := pool.RunBoth(c.Scratch, prog, gjs.Opts{}, 5*time.Minute, true, false)
+		if res.BuildErr != nil {
+			if be, ok := res.BuildErr.(*gjs.BuildError); ok && be.Panic {
+				c.Report(core.Case{Keys: []string{"compiler_panic"}, Summary: "compiler internal error on a type-family program: " + be.Error(), Files: prog.ReplayFiles("prog")})
+			} else {
+				c.Infra(fmt.Errorf("gopherjs build failed: %v", res.BuildErr))
+			}
+			return
+		}
+		if res.NativeErr != "" {
+			c.Infra(fmt.Errorf("reference toolchain rejected a generated program (generator or WellFormed is wrong): %s", firstLines(res.NativeErr, 12)))
+			return
+		}
+		nat := sections(res.Native.Lines)
+		jsS := sections(res.JS.Lines)
+		for _, f := range fams {
+			n, ok := nat[f.idx]
+			good := ok && len(n) == len(f.cells)
+			if good {
+				for k := range n {
+					if n[k] != f.cells[k].want {
+						good = false
+						if os.Getenv("VERIF_VERBOSE") != "" {
+							fmt.Fprintf(os.Stderr, "spec/guard disagreement: family %s line %d (%s %d %d): native %q, spec %q\n", f.t.key(), k, f.cells[k].kind, f.cells[k].a, f.cells[k].b, n[k], f.cells[k].want)
+						}
+						break
+					}
+				}
+			}
+			mu.Lock()
+			if !good {
+				discards++
+				mu.Unlock()
+				continue
+			}
+			validated++
+			cells += len(f.cells)
+			mu.Unlock()
+			if bad := modelSelfCheck(f); bad > 0 {
+				c.Add("defect_model_selfcheck_failures", bad)
+				if os.Getenv("VERIF_VERBOSE") != "" {
+					fmt.Fprintf(os.Stderr, "defect model with all deviations off disagrees with the spec on %d cells: %s\n", bad, famText(f.t))
+				}
+			}
+			ms := compareFamily(f, jsS[f.idx], res.JS)
+			if len(ms) > 0 {
+				mu.Lock()
+				mism = append(mism, ms...)
+				mu.Unlock()
+			}
+		}
+	})
+	c.Phase("families")
+	// ---- identity scenario
+	icells, idisc := 0, 0
+	if len(rows) > 0 {
+		sort.Slice(rows, func(i, j int) bool { return rows[i].N < rows[j].N })
+		ms, n, d, err := decideIdent(c, pool, &p.Ident, rows)
+		if err != nil {
+			c.Infra(err)
+			return
+		}
+		icells, idisc = n, d
+		mism = append(mism, ms...)
+		for _, r := range rows {
+			c.Distinct(fmt.Sprintf("ident|%d|%s", r.Site, js(r.Expr)))
+		}
+		c.Set("ident_sited_expressions", len(rows))
+	}
+	c.Phase("ident")
+	c.Set("evaluations", cells+icells)
+	c.Set("spec_guard_discards", discards+idisc)
+	c.Set("traces_validated_against_impl", validated)
+	if discards+idisc > 0 {
+		fmt.Printf("note: %d families / identity cells discarded because the reference toolchain disagrees with the specification\n", discards+idisc)
+	}
+	report(c, p, mism)
+	for i, t := range tables {
+		if i%(len(tables)/4+1) == 0 {
+			c.Sample(map[string]any{"space": t.sp.Label, "types": t.Types, "as": t.As, "s2": t.S2, "disp": len(t.Disp)})
+		}
+	}
+}
+
+func firstLines(s string, n int) string {
+	ls := strings.Split(s, "\n")
+	if len(ls) > n {
+		ls = ls[:n]
+	}
+	return strings.Join(ls, "\n")
+}
+
+// sections splits program output into the per-family sections (#F n ... #E n).
+func sections(lines []string) map[int][]string {
+	out := map[int][]string{}
+	cur := -1
+	for _, l := range lines {
+		if strings.HasPrefix(l, "#F ") {
+			fmt.Sscanf(l, "#F %d", &cur)
+		}
+		if cur >= 0 {
+			out[cur] = append(out[cur], l)
+		}
+		if strings.HasPrefix(l, "#E ") || l == "!panic" {
+			cur = -1
+		}
+	}
+	return out
+}
+
+// mismatch is one table cell on which the compiled program differs from the
+// prediction (the reference toolchain agreed with the prediction).
+type mismatch struct {
+	t        *Table
+	idx      int
+	c        cell
+	got      string
+	keys     []string
+	ident    *identMismatch
+	observed []string
+}
+
+func compareFamily(f *famProg, got []string, obs gjs.Obs) []mismatch {
+	var out []mismatch
+	if len(got) != len(f.cells) {
+		// the section stopped early (panic inside the family) or is missing
+		k := 0
+		for k < len(got) && k < len(f.cells) && got[k] == f.cells[k].want {
+			k++
+		}
+		c := cell{kind: "abort"}
+		g := fmt.Sprintf("section has %d lines, want %d (program end=%s %s)", len(got), len(f.cells), obs.End, obs.Msg)
+		if k < len(f.cells) {
+			c = f.cells[k]
+			c.kind = "abort:" + c.kind
+			if k < len(got) {
+				g = got[k] + " ... " + g
+			}
+		}
+		m := mismatch{t: f.t, idx: f.idx, c: c, got: g, observed: got}
+		m.keys = classify(&m)
+		return []mismatch{m}
+	}
+	for k := range got {
+		if got[k] == f.cells[k].want {
+			continue
+		}
+		m := mismatch{t: f.t, idx: f.idx, c: f.cells[k], got: got[k], observed: got}
+		m.keys = classify(&m)
+		out = append(out, m)
+	}
+	return out
+}
+
+type identMismatch struct {
+	a, b       *IRow
+	want, got  string
+	siteA, siB ISite
+}
+
+func decideIdent(c *core.Ctx, pool *gjs.Pool, id *Ident, rows []*IRow) (ms []mismatch, cells, discards int, err error) {
+	prog := renderIdent(id, rows)
+	res := pool.RunBoth(c.Scratch, prog, gjs.Opts{}, 5*time.Minute, true, false)
+	if res.BuildErr != nil {
+		if be, ok := res.BuildErr.(*gjs.BuildError); ok && be.Panic {
+			c.Report(core.Case{Keys: []string{"compiler_panic"}, Summary: "compiler internal error on the type-identity program: " + be.Error(), Files: prog.ReplayFiles("prog")})
+			return nil, 0, 0, nil
+		}
+		return nil, 0, 0, fmt.Errorf("gopherjs build of the identity program failed: %v", res.BuildErr)
+	}
+	if res.NativeErr != "" {
+		return nil, 0, 0, fmt.Errorf("reference toolchain rejected the identity program: %s", firstLines(res.NativeErr, 12))
+	}
+	if len(res.Native.Lines) != len(rows) {
+		return nil, 0, 0, fmt.Errorf("identity program: native printed %d rows, want %d (%s %s)", len(res.Native.Lines), len(rows), res.Native.End, res.Native.Msg)
+	}
+	if len(res.JS.Lines) != len(rows) || res.JS.End != "exit" {
+		c.Report(core.Case{Keys: []string{"program_aborted"}, Summary: fmt.Sprintf("identity program printed %d rows, want %d; end=%s msg=%s", len(res.JS.Lines), len(rows), res.JS.End, res.JS.Msg), Files: prog.ReplayFiles("prog")})
+		return nil, 0, 0, nil
+	}
+	for a, r := range rows {
+		nl, jl := res.Native.Lines[a], res.JS.Lines[a]
+		if len(nl) != len(rows) || len(jl) != len(rows) {
+			return nil, 0, 0, fmt.Errorf("identity program: row %d has %d/%d cells, want %d", a, len(nl), len(jl), len(rows))
+		}
+		for b := range rows {
+			want := r.Row[b]
+			if string(nl[b]) != want {
+				discards++
+				if os.Getenv("VERIF_VERBOSE") != "" {
+					fmt.Fprintf(os.Stderr, "spec/guard disagreement: identity %s@%d vs %s@%d: native %c spec %s\n", js(r.Expr), r.Site, js(rows[b].Expr), rows[b].Site, nl[b], want)
+				}
+				continue
+			}
+			cells++
+			if string(jl[b]) == want {
+				continue
+			}
+			im := &identMismatch{a: r, b: rows[b], want: want, got: string(jl[b]), siteA: id.Sites[r.Site-1], siB: id.Sites[rows[b].Site-1]}
+			m := mismatch{ident: im, got: string(jl[b])}
+			m.keys = classifyIdent(im)
+			ms = append(ms, m)
+		}
+	}
+	return ms, cells, discards, nil
+}
